@@ -36,8 +36,36 @@ def gen_xyz(seed, s, m, natoms):
     return (rs(seed, s, 1).randint(-16, 16, size=(m, natoms, 3)) / 4.0).astype(np.float32)
 
 
-def gen_time(seed, s, m):
-    return 1000.0 * (s + 1) + np.arange(m, dtype=np.float64)
+def gen_time(seed, s, m, kind=True):
+    """kind True / "f8i": float64 holding whole numbers (the historical default); "i8": int64 frame numbers offset by
+    the source; "f4": float32 with fractional values (k / 8, exact); "f8": float64 with fractional values that float32
+    cannot hold (k / 4 + 2^-20).  Any cast, truncation or rounding of a time value on its way through an operation
+    changes it, and values are compared exactly."""
+    f = np.arange(m, dtype=np.float64)
+    if kind == "i8":
+        return (1000 * (s + 1) + np.arange(m)).astype(np.int64)
+    if kind == "f4":
+        return (1000.0 * (s + 1) + f * 0.25 + 0.125).astype(np.float32)
+    if kind == "f8":
+        return 1000.0 * (s + 1) + f * 0.25 + 2.0 ** -20
+    return 1000.0 * (s + 1) + f
+
+
+def relayout(a, seed, s):
+    """the same float32 VALUES handed over as another kind of array: float64, Fortran-ordered, or a non-contiguous
+    view; ensure_type has to bring each of them to C-contiguous float32 without changing a value"""
+    k = (seed * 31 + s * 7) % 5
+    if k == 1:
+        return a.astype(np.float64)
+    if k == 2:
+        return np.asfortranarray(a)
+    if k == 3:
+        big = np.zeros((a.shape[0] * 2,) + a.shape[1:], dtype=a.dtype)
+        big[::2] = a
+        return big[::2]
+    if k == 4:
+        return np.asfortranarray(a.astype(np.float64))
+    return a
 
 
 def gen_lengths(seed, s, m):
@@ -307,14 +335,17 @@ def run_case(md, case):
         note_kinds(chains)
         xyz = gen_xyz(seed, s, n, natoms)
         src = {"xyz": xyz.copy()}
+        xyz = relayout(xyz, seed, s) if case.get("layouts", True) else xyz
         kw = {}
         if etime:
-            tm = gen_time(seed, s, n)
+            tm = gen_time(seed, s, n, etime)
             src["time"] = tm.copy()
             kw["time"] = tm
         if cell:
             ln, an = gen_lengths(seed, s, n), gen_angles(seed, s, n)
             src["len"], src["ang"] = ln.copy(), an.copy()
+            if case.get("layouts", True):
+                ln, an = relayout(ln, seed, s + 1), relayout(an, seed, s + 2)
             kw["unitcell_lengths"], kw["unitcell_angles"] = ln, an
         sources[s] = src
         regs.append(md.Trajectory(xyz, make_top(md, chains, bool(case.get("bonded"))), **kw))
@@ -431,14 +462,14 @@ def run_case(md, case):
                 _, r, m, natoms = op
                 a = gen_xyz(seed, nsrc, m, natoms)
                 snap = a.copy()
-                regs[r].xyz = a
+                regs[r].xyz = relayout(a, seed, nsrc) if case.get("layouts", True) else a
                 sources[nsrc] = {"xyz": snap}
                 nsrc += 1
             elif name == "set_xyz_share":
                 regs[op[1]].xyz = regs[op[2]].xyz
             elif name == "set_time_new":
-                _, r, m = op
-                a = gen_time(seed, nsrc, m)
+                r, m = op[1], op[2]
+                a = gen_time(seed, nsrc, m, op[3] if len(op) > 3 else True)
                 regs[r].time = a
                 sources[nsrc] = {"time": a.copy()}
                 nsrc += 1
@@ -451,7 +482,7 @@ def run_case(md, case):
                     setattr(regs[r], attr, None)
                 else:
                     a = gen_lengths(seed, nsrc, m) if name == "set_lengths" else gen_angles(seed, nsrc, m)
-                    setattr(regs[r], attr, a)
+                    setattr(regs[r], attr, relayout(a, seed, nsrc) if case.get("layouts", True) else a)
                     sources[nsrc] = {("len" if name == "set_lengths" else "ang"): a.copy()}
                     nsrc += 1
             elif name == "set_vectors":
